@@ -1398,6 +1398,18 @@ def run_c19(chk):
     for od in odocs:
         for _ in range(4):
             qs.append((od, XP.BINDINGS, [rng.choice(oq) for _ in range(8)]))
+    # several attributes supplied from defaults whose DECLARED TYPES differ (CDATA keeps its white space, a tokenized type loses it):
+    # each reports its own value whichever of them was read first (round-9 seed C19-N memoised the declared type by attribute
+    # id - and every defaulted attribute has id 0)
+    tdocs = ["<!DOCTYPE r [<!ATTLIST r t NMTOKENS ' x  y ' c CDATA ' a  b ' n NMTOKEN ' k ' i IDREFS ' p  q '>]><r/>",
+             "<!DOCTYPE r [<!ATTLIST e c CDATA ' a  b ' t NMTOKENS ' x  y '>]><r><e/><e c=' own  c ' t=' own  t '/></r>"]
+    tq = ["string(/r/@c)", "string(/r/@t)", "string(/r/@n)", "string(/r/@i)", "string-length(/r/@c)", "string(//e[1]/@c)", "string(//e[1]/@t)",
+          "string(//e[2]/@c)", "string(//e[2]/@t)", "concat('[', //e[1]/@c, '|', //e[1]/@t, ']')", "concat('[', /r/@t, '|', /r/@c, ']')"]
+    for td in tdocs:
+        for _ in range(8):
+            qs.append((td, XP.BINDINGS, [rng.choice(tq) for _ in range(6)]))
+        qs.append((td, XP.BINDINGS, tq))
+        qs.append((td, XP.BINDINGS, list(reversed(tq))))
     # entities whose replacement text refers to other entities, used in attribute values (white space normalised) and in content
     # (kept): reading one must not change what the other reports, nor the declarations (round-6 seed C19-H wrote the first
     # expansion back into the declaring entity)
@@ -1466,7 +1478,7 @@ def run_c19(chk):
             # (documents with several defaulted attributes: their node-sets fall under the recorded finding default-attr-order
             # of C05 / C07 - here only the stability of the answers is the subject)
             for e, x, z in zip(es, fa, fm):
-                if x != z and not classify_ns(e, x, z) and t not in odocs[:2]:
+                if x != z and not classify_ns(e, x, z) and t not in odocs[:2] and t not in tdocs:
                     tdis.append((t, e, x, z))
                     break
     for t, x, y in zip(texts + texts, p1, p2):
@@ -1515,6 +1527,25 @@ def run_c19(chk):
     # ... and what an earlier query computed must not be what a later one answers with after the document changed: namespace
     # declarations set and removed on ancestors between queries that resolve names below them (round-7 seed C19-I kept each
     # element's in-scope namespaces from the first query on)
+    # ... nor what it computed while the document type declaration was out (defaults, declared types, entities come and go with
+    # it): taken out, queried, put back in every place it may stand, queried (round-9 seed C19-M cached "no definitions" per
+    # element name while the declaration was out)
+    DTD_ = ("<!DOCTYPE r [<!ENTITY v 'ev'><!ATTLIST e a CDATA 'd' t NMTOKENS ' x  y '><!ATTLIST r k CDATA 'rk'>]>"
+            "<!--lead--><r><e/><e a='1' t=' p  q '/></r>")     # h0 document, h1 doctype, h2 comment, h3 r
+    dq_ = "count(//e/@a);string(//e[2]/@t);string(//e[1]/@t);count(//@*);string(/r/@k);//e[@a='d']"
+    dth = [(DTD_, ["rm:h0:h1", "ib:h0:h1:h2"]), (DTD_, ["rm:h0:h1", "ib:h0:h1:h3"]), (DTD_, ["rm:h0:h1", "ib:h0:h1:h3", "rm:h0:h1", "ib:h0:h1:h2"]),
+           (DTD_, ["rm:h0:h1", "ce:z", "ib:h0:h1:h3"]), (DTD_, ["rc:h0:h2:h1"]), (DTD_, ["rm:h0:h2", "rm:h0:h1", "ib:h0:h1:h3"])]
+    dto = lib.run_lines(h, [lib.req("dom", t, dq_, *ops) for t, ops in dth], timeout=300, per_line_resume=True)
+    for (t, ops), a in zip(dth, dto):
+        for i, rec in enumerate(D.split_records(a)):
+            edited_states += 1
+            chk.count(["doctype-out-and-in", t] + ops[:i], nontrivial=i > 0 and rec["status"].startswith("ok"))
+            q = rec["flags"].get("q", "")
+            if q not in ("ok", "skip", "") and q is not None and "SIDE-EFFECT" not in q:
+                mfail.append((t, "dom history: " + " ".join(ops[:i]), "after the document type declaration was taken out and put back a query "
+                              "answers with what was computed while it was out (the edited document and a fresh parse of its serialization "
+                              "give different answers)", q[:600]))
+                break
     nsh = DC.ns_histories(rng, 150 if thorough else 60, DC.NSDOCS_) + DC.ns_node_cases(DC.NSDOCS_)[:20]
     nso = lib.run_lines(h, [lib.req("dom", t, DC.NSQ + ";//p:*;//q:*;count(//*[name() != local-name()]);//@p:*", *ops) for t, ops in nsh],
                         timeout=900, per_line_resume=True)
